@@ -7,7 +7,7 @@ import RepidProofs.Proofs.MemCount
 namespace Repid.Mem
 open List
 
-@[simp] theorem heldMsgs_mk (s d dd p a l) : heldMsgs ⟨s, d, dd, p, a, l⟩ = p.map (·.msg) := rfl
+@[simp] theorem heldMsgs_mk (s d dd p a l b) : heldMsgs ⟨s, d, dd, p, a, l, b⟩ = p.map (·.msg) := rfl
 
 theorem total_put (cron) (i : String) (q : Q) (m : Msg) (now : Int) :
     total i (put q m now cron) = total i q + (if m.id = i then 1 else 0) := by
@@ -111,8 +111,8 @@ theorem total_pollTake (i : String) (q : Q) (c : Nat) (cat : Cat) (now : Int) (t
     | none => simp [hp] at *; exact this
     | some m => simp [hp, total, heldMsgs] at *; omega
 
-theorem total_finishA (i : String) (q : Q) (perm : List Held) (h : perm.Perm q.processing) :
-    total i (finishA q perm) = total i q := by
+theorem total_finishA (i : String) (q : Q) (c : Nat) (perm : List Held) (h : perm.Perm q.processing) :
+    total i (finishA q c perm) = total i q := by
   have := cnt_perm i (h.map (·.msg))
   simp [finishA, total, heldMsgs] at *; omega
 
@@ -141,10 +141,10 @@ theorem total_step (cron) (i : String) (q : Q) (op : Op) :
   | reject id => simp [step, total_rejectA, introduces]
   | update now => simp [step, total_updateDelayed, introduces]
   | poll c cat now topics => simp [step, total_pollTake, introduces]
-  | finish perm =>
+  | finish c perm =>
     simp only [step]
     split
-    · next h => simp [total_finishA i q perm (List.isPerm_iff.mp h), introduces]
+    · next h => simp [total_finishA i q c perm (List.isPerm_iff.mp h), introduces]
     · simp [introduces]
 
 theorem total_run (cron) (i : String) (ops : List Op) (q : Q) :
